@@ -155,7 +155,8 @@ var zzCDs []*spectypes.ConsensusData
 
 func zzCDEncode(cd *spectypes.ConsensusData) ([]byte, error) {
 	for i, c := range zzCDs {
-		if c == cd || (c.Duty.Slot == cd.Duty.Slot && c.Duty.Type == cd.Duty.Type && string(c.DataSSZ) == string(cd.DataSSZ) && c.Duty.ValidatorIndex == cd.Duty.ValidatorIndex) {
+		if c == cd || (c.Duty.Slot == cd.Duty.Slot && c.Duty.Type == cd.Duty.Type && string(c.DataSSZ) == string(cd.DataSSZ) && c.Duty.ValidatorIndex == cd.Duty.ValidatorIndex &&
+			c.Duty.CommitteeLength == cd.Duty.CommitteeLength && c.Duty.ValidatorCommitteeIndex == cd.Duty.ValidatorCommitteeIndex) {
 			return []byte{0xCD, byte(i + 1)}, nil
 		}
 	}
@@ -480,7 +481,13 @@ func ZZHarnessAttesterPost() {
 	g.bn.att.Slot = H
 	duty := &spectypes.Duty{Type: spectypes.BNRoleAttester, Slot: H, ValidatorIndex: 7, CommitteeLength: 4, ValidatorCommitteeIndex: 1}
 	zzAssume(g.r.StartNewDuty(g.lg, duty) == nil)
-	ownValue, _ := zzCDEncode(&spectypes.ConsensusData{Duty: *duty, Version: spec.DataVersionPhase0, DataSSZ: []byte{0xA7, 1}})
+	// the decided value may carry the duty as the round leader's beacon node saw it: another seat in the committee
+	// (the value check does not pin these fields); what is submitted is built from the DECIDED duty
+	decidedDuty := *duty
+	if zzParam("SEAT") == 1 {
+		decidedDuty.CommitteeLength, decidedDuty.ValidatorCommitteeIndex = 6, 3
+	}
+	ownValue, _ := zzCDEncode(&spectypes.ConsensusData{Duty: decidedDuty, Version: spec.DataVersionPhase0, DataSSZ: []byte{0xA7, 1}})
 	zzAssume(g.r.ProcessConsensus(g.lg, g.decided(specqbft.Height(H), 1, ownValue, int(g.share.Quorum))) == nil)
 	zzAssume(len(g.km.sigs) == 1)
 	root := g.postRoot()
@@ -526,6 +533,8 @@ func ZZHarnessAttesterPost() {
 			zzAssert(len(g.bn.submits) == 1, "at-most-one-submission-per-decided-object")
 			a := g.bn.submits[len(g.bn.submits)-1]
 			zzAssert(a.Data == g.bn.att, "submitted-object-is-the-decided-object")
+			zzAssert(a.AggregationBits.Len() == decidedDuty.CommitteeLength && a.AggregationBits.BitAt(decidedDuty.ValidatorCommitteeIndex) && a.AggregationBits.Count() == 1,
+				"submitted-attestation-names-the-committee-seat-of-the-decided-duty")
 			s := a.Signature
 			ok := s[0] == 1 && s[1] == 0xFF && s[2] == 0
 			for i := 0; i < 32; i++ {
